@@ -1,6 +1,7 @@
 """C19 - HTML report shows every segment and error, with all source data escaped."""
 import html
 import html.parser
+import re
 import zlib
 
 from vlib import corpus, faults, gen_doc, mutate, pipeline, reencode, ref_token
@@ -162,6 +163,49 @@ def judge(ctx, text, charset, case, sigs):
     # ---- messages next to their segment
     nlines = len(src)
     canary_msgs = 0
+    # element-level findings on header / trailer elements hang on the loop's own node (ISA/IEA, GS/GE, ST/SE); the message names the element
+    from vlib import ref_envelope as RE_
+    try:
+        proper = RE_.recount([(pc.sid, [sub_t.join(c) for c in pc.elements]) for pc in pieces if not pc.blank_only]).proper
+    except Exception:
+        proper = False
+    for er in errors:
+        if er[12] not in ('st', 'gs', 'isa') or er[0] != 'ele':
+            continue
+        if not proper:
+            ctx.count('envelope-element-findings:skipped-envelope-not-properly-nested')      # the report's cursor is lost there: the err_iter findings cover that
+            continue
+        m_ = re.search(r'\((ISA|IEA|GS|GE|ST|SE)(\d\d)\)', er[13] or '')
+        if not m_:
+            ctx.count('envelope-element-findings:segment-not-named-in-message')
+            continue
+        sid = m_.group(1)
+        try:
+            isa = res.shape[er[1]]
+            if er[12] == 'isa':
+                line = isa['line_isa'] if sid == 'ISA' else isa['line_iea']
+            elif er[12] == 'gs':
+                g_ = isa['groups'][er[2]]
+                line = g_['line_gs'] if sid == 'GS' else g_['line_ge']
+            else:
+                s_ = isa['groups'][er[2]]['sets'][er[3]]
+                line = s_['line_st'] if sid == 'ST' else s_['line_se']
+        except Exception:
+            line = None
+        if line is None or not (1 <= line <= nlines) or src[line - 1][0] != sid:
+            ctx.count('envelope-element-findings:line-unknown')
+            continue
+        ctx.count('envelope-element-findings-located')
+        lo = line_pos[line]
+        hi = line_pos[line + 1] if line + 1 in line_pos else len(p.items)
+        near = [nb(t) for (k, t) in p.items[lo + 1:hi] if k == 'error']
+        if not any(nb(er[13]) in t for t in near):
+            anywhere = any(nb(er[13]) in nb(t) for (k, t) in p.items if k == 'error')
+            ordinal = 'first' if (er[12] == 'st' and er[3] == 0 and er[2] == 0 and er[1] == 0) or (er[12] == 'gs' and er[2] == 0 and er[1] == 0) or (er[12] == 'isa' and er[1] == 0) else 'later'
+            ctx.viol('html:envelope-element-message-not-next-to-segment:%s:%s:%s-loop-of-its-kind' % (sid, 'misplaced' if anywhere else 'missing', ordinal),
+                     'the message of an element-level error on a header / trailer element is not shown next to that segment', case,
+                     {'line': line, 'message': (er[13] or '')[:200], 'near': near[:4]})
+            return
     for er in errors:
         if er[12] != 'seg':
             continue
@@ -301,7 +345,7 @@ def run(ctx):
             continue
         if len(doc.recs) > 250:
             continue
-        fam = rng.choice(['valid', 'faults', 'faults', 'canaries', 'canaries', 'mutated', 'soup'])
+        fam = rng.choice(['valid', 'faults', 'faults', 'canaries', 'canaries', 'mutated', 'soup', 'envelope-elements'])
         kinds = [fam]
         if fam in ('faults', 'mutated'):
             for _ in range(rng.randint(1, 6)):
@@ -309,6 +353,24 @@ def run(ctx):
                 if f is not None:
                     doc = f.doc
                     kinds.append(f.kind)
+        if fam == 'envelope-elements':
+            # element-level findings on the header / trailer segments of SEVERAL sets and groups (too short ST02/SE02, impossible GS04, GS05):
+            # every one of them must be shown next to its own segment, also in the second and third loop of a kind
+            try:
+                doc = gen_doc.gen_document(e, rng.randrange(1 << 30), **dict(kw, n_st=rng.choice([2, 3]), n_gs=rng.choice([1, 2])))
+            except gen_doc.GenFailed:
+                continue
+            doc = faults.clone(doc)
+            nst = 0
+            for r in doc.recs:
+                if r.node.id in ('ST', 'SE') and rng.random() < 0.8:
+                    r.vals[1] = r.vals[1][-2:]                 # two characters: shorter than the minimum of 4, still equal in ST and SE
+                    nst += 1
+                if r.node.id == 'GS' and rng.random() < 0.7:
+                    r.vals[3] = rng.choice(['20241301', '2024010'])
+                if r.node.id == 'GS' and rng.random() < 0.4:
+                    r.vals[4] = '2561'
+            ctx.count('docs:envelope-element-findings')
         if fam == 'canaries':
             doc = plant_canaries(rng, doc, rng.randint(1, 5), terms)
         text = doc.text(terms[0], terms[1], terms[2], '\n' if terms[0] != '\n' else '')
